@@ -11,7 +11,7 @@ import common as C
 HASH_RE = re.compile(r"^RUN seed=(\d+) hash=([0-9a-f]+) .*?cfg=(\S+)", re.M)
 DIG_RE = re.compile(r'"digest":"([0-9a-f]+)"')
 
-DRIVERS = [("c03.cc", []), ("c40.cc", ["--mode", "table"]), ("c38.cc", []), ("c19.cc", ["--mode", "conc"]), ("c33.cc", []), ("c02.cc", [])]
+DRIVERS = [("c03.cc", []), ("c40.cc", ["--mode", "table"]), ("c38.cc", []), ("c19.cc", ["--mode", "conc"]), ("c33.cc", []), ("c02.cc", []), ("c21t.cc", [])]
 
 
 def digest(binary, seed0, n, args, cpu=None, env=None):
@@ -30,7 +30,7 @@ def run(argv):
     for src, args in DRIVERS:
         if not os.path.exists(os.path.join(C.VERIF, "drivers", src)):
             continue
-        per = max(4, nseeds // (12 if src in ("c02.cc", "c33.cc") else 1))
+        per = max(4, nseeds // (12 if src in ("c02.cc", "c33.cc") else 60 if src == "c21t.cc" else 1))
         for variant in ("sim",):
             b = C.ensure_driver(variant, src)
             d1 = digest(b, 1000, per, args)
@@ -38,6 +38,8 @@ def run(argv):
             d3 = digest(b, 1000, per, args, env={"MALLOC_PERTURB_": "165"})
             if not (d1 == d2 == d3):
                 problems.append("%s: digests differ between free/pinned/perturbed-heap runs: %s %s %s" % (src, d1, d2, d3))
+            if src == "c21t.cc":
+                continue   # several simulated runs per seed (one per faulted allocation): only the digest comparisons apply
             # batch vs single-seed processes, and record -> replay
             rc, out, err = C.run_proc([b, "--seed", "1000", "--n", "6", "--faildir", wd, "-v"] + args, 120)
             batch = {int(s): (h, cfg) for s, h, cfg in HASH_RE.findall(out)}
